@@ -515,6 +515,19 @@ class ComponentLevel3( ComponentLevel2 ):
         if writer not in writer_prop:
           pass
 
+        # Two readers of this net that are overlapping slices of the same
+        # signal drive the shared bits twice (from different bits of the
+        # writer). Overlapping readers in two different nets are caught
+        # above when the second net is resolved.
+        readers = [ v for v in net if v is not writer and not isinstance( v, Const ) ]
+        for i, v in enumerate( readers ):
+          siblings = v.get_sibling_slices()
+          for u in readers[i+1:]:
+            if any( u is x for x in siblings ) and u.slice_overlap( v ):
+              raise MultiWriterError( \
+              "Two-writer conflict: \"{}\" and \"{}\" overlap and are both driven in the following net:\n - {}".format(
+                repr(v), repr(u), "\n - ".join([repr(x) for x in net])) )
+
         for v in net:
           if v != writer:
             writer_prop[ v ] = True # The reader becomes new writer
